@@ -1,7 +1,7 @@
 #!/usr/bin/env python3
 """tools/eval_benign.py [--own]: the other half of the regression: every benign/<name>/patch.diff is a change to /repo under which the
 property still holds (twins of seeded changes: the same shape of edit, made so that behaviour is kept).  Each is applied to a scratch
-worktree of /repo HEAD (outside /repo and /verif, removed afterwards), the test suite is run, and all 20 checks (--own: only the check
+worktree of /repo HEAD (outside /repo and /verif, removed afterwards), the test suite is run, and all 20 checks (--own, or a file OWN in the twin's directory: only the check
 named by the first three letters) must exit 0 on it.  Prints every check that reports a violation or an analysis error."""
 import json
 import os
@@ -21,14 +21,25 @@ def one(name, own):
     wt = os.path.join(tmp, 'wt')
     try:
         subprocess.run('git -C /repo worktree add -q --detach %s HEAD' % wt, shell=True, check=True, stdout=subprocess.PIPE, stderr=subprocess.PIPE)
+        eq = os.path.join(d, 'equiv.py')
+        dig0 = None
+        if os.path.exists(eq):
+            # the differential test of the twin: one DIGEST line, the same before and after the patch
+            q0 = subprocess.run('/venv/bin/python %s' % eq, shell=True, cwd=wt, env=dict(os.environ, PYTHONPATH=wt), stdout=subprocess.PIPE, stderr=subprocess.DEVNULL, timeout=900)
+            dig0 = [l for l in q0.stdout.decode(errors='replace').splitlines() if l.startswith('DIGEST')][-1:]
         p = subprocess.run('git apply %s' % os.path.join(d, 'patch.diff'), shell=True, cwd=wt, stdout=subprocess.PIPE, stderr=subprocess.STDOUT)
         if p.returncode:
             return name, 'patch-does-not-apply', {}
+        if dig0 is not None:
+            q1 = subprocess.run('/venv/bin/python %s' % eq, shell=True, cwd=wt, env=dict(os.environ, PYTHONPATH=wt), stdout=subprocess.PIPE, stderr=subprocess.DEVNULL, timeout=900)
+            dig1 = [l for l in q1.stdout.decode(errors='replace').splitlines() if l.startswith('DIGEST')][-1:]
+            if not dig0 or dig0 != dig1:
+                return name, 'digest-differs (the twin is not behaviour-preserving on this tree)', {}
         t = subprocess.run('/venv/bin/python -m pytest -q -p no:cacheprovider --timeout=900 -x', shell=True, cwd=wt, stdout=subprocess.PIPE, stderr=subprocess.STDOUT)
         if t.returncode:
             return name, 'tests-fail', {}
         res = {}
-        for c in ([name[:3]] if own else ALL):
+        for c in ([name[:3]] if (own or os.path.exists(os.path.join(d, 'OWN'))) else ALL):
             q = subprocess.run('./check %s --no-write --no-controls' % c, shell=True, cwd=VERIF, env=dict(os.environ, VERIF_REPO=wt), stdout=subprocess.PIPE, stderr=subprocess.STDOUT, timeout=1800)
             res[c] = q.returncode
         return name, 'ok', res
